@@ -75,6 +75,31 @@ func universe(thorough bool) []*item {
 	for _, s := range specs {
 		out = append(out, &item{s: s, v: vals.Build(s), nan: vals.IsNaN(s), name: s.String()})
 	}
+	// payloads that are views of ONE backing array (as cut from a reused buffer) next to independent
+	// copies of the same contents: equality and order are about contents, not about storage
+	bb := []byte{9, 8, 7, 6, 5, 4}
+	ii := []int32{9, 8, 7, 6}
+	ll := []int64{9, 8, 7, 6}
+	ff := []float32{9, 8, 7, 6}
+	tt := []string{"9", "8", "7", "6"}
+	for _, n := range []int{1, 2, 4} {
+		for _, shared := range []bool{true, false} {
+			tag := "copy"
+			if shared {
+				tag = "view of a shared buffer"
+			}
+			b, i, l, f, t := bb[:n], ii[:n], ll[:n], ff[:n], tt[:n]
+			if !shared {
+				b, i, l, f, t = append([]byte{}, b...), append([]int32{}, i...), append([]int64{}, l...), append([]float32{}, f...), append([]string{}, t...)
+			}
+			out = append(out,
+				&item{s: &vals.Spec{T: vals.TBlob, Bytes: b}, v: value.NewBlobValue(b), name: fmt.Sprintf("blob(%x, %s)", b, tag)},
+				&item{s: &vals.Spec{T: vals.TAI32, I32s: i}, v: value.NewIntArray(i), name: fmt.Sprintf("int[]%v(%s)", i, tag)},
+				&item{s: &vals.Spec{T: vals.TAI64, I64s: l}, v: value.NewLongArray(l), name: fmt.Sprintf("long[]%v(%s)", l, tag)},
+				&item{s: &vals.Spec{T: vals.TAF32, F32s: f}, v: value.NewFloatArray(f), name: fmt.Sprintf("float[]%v(%s)", f, tag)},
+				&item{s: &vals.Spec{T: vals.TATxt, Strs: t}, v: value.NewTextArray(t), name: fmt.Sprintf("text[]%v(%s)", t, tag)})
+		}
+	}
 	return out
 }
 
